@@ -116,6 +116,7 @@ def program_list(tier):
             progs.append(("scalar", shape, dims, op))
             progs.append(("binary", shape, dims, op))
         progs.append(("broadcast", shape, dims))
+        progs.append(("broadcast-lead", shape, dims))
         if len(dims) == 2 and shape[0] == shape[1]:
             progs.append(("broadcast-perm", shape, dims))
         progs.append(("join", shape, dims, "coord"))
@@ -322,6 +323,21 @@ def build_and_eval(prog):
         c2 = dict(coords)
         c2["bx"] = list(B.coords["bx"])
         return finish(act, want, tuple(dims) + ("bx",), c2)
+    if kind == "broadcast-lead":
+        # the target's additional dimension comes first (and is longer than the source's own dimensions)
+        B = Src("b", (shape[0] + 1,) + shape, ("bx",) + tuple(dims))
+        B.action.nodes = B.action.nodes.assign_coords({d: coords[d] for d in dims})
+        act = apply_guarded("broadcast", lambda: A.action.broadcast(B.action))
+        rdims = [str(d) for d in act.nodes.dims]
+        if sorted(rdims) != sorted(list(dims) + ["bx"]):
+            raise Violated("dims-differ-from-documented", f"{rdims}")
+        c2 = dict(coords)
+        c2["bx"] = list(B.coords["bx"])
+        want = {}
+        for idx in np.ndindex(*[len(c2[d]) for d in rdims]):
+            byname = dict(zip(rdims, idx))
+            want[idx] = vals[tuple(byname[d] for d in dims)]
+        return finish(act, want, tuple(rdims), c2)
     if kind == "broadcast-perm":
         # the target stores the shared dimensions in another order than the source
         B = Src("b", (shape[1], shape[0], 2), (dims[1], dims[0], "bx"))
